@@ -201,7 +201,7 @@ def applyChanges (g : Graph V) (s1 : St V) (ch : List (Nat × V)) : St V × Opti
   let prog := program g (ch.map (·.1))
   let s2 := prepare g { s1 with sw := !s1.sw, lastUndo := [] } prog
   let r3 := setPars g s2.sw ch s2 []
-  let r4 := runProg g r3.1.sw prog r3.1
+  let r4 := runProg g s2.sw prog r3.1
   if r4.2 then
     ({ r4.1 with lastUndo := r3.2 }, some (content g r4.1 r4.1.sw (g.n - 1)))
   else
